@@ -129,6 +129,17 @@ CLAIMED['C12'] = (
     'whitespace only differential; that modules read the dictionary in their own order is tested by the whole-run variants (DESIGN §5)',
     'Lean 4 proof over a character-level tokenizer model + exact differential + whole-run variants')
 
+CLAIMED['C19'] = (
+    'Every clause is a kernel-decided obligation (decide +kernel) over tables regenerated from the repository on each run: generated request schema '
+    'names = union of the enumerated sources, each identically-defined parameter has the type / unit / bounds / numeric default its module '
+    'declaration enforces, the three committed schema files equal the generated ones entry by entry, every result-schema field is in the client '
+    'field list, every schema name is accepted by some module, and the accepted-but-unlisted names are exactly the listed known finding F13 (30 names); '
+    'a change to any declaration, source list, committed file or client field list changes a table and the kernel re-decides. The space is finite and '
+    'enumerated completely.',
+    'kernel (decide +kernel adds no axioms); tools/extract.py (data copying, string interning, canonical JSON) is the translator in the trusted base; '
+    'enforcement of the bounds themselves is C07; known findings F13 (30 names), F20 (Maximum Drawdown max)',
+    'Lean 4 kernel decision over regenerated finite tables (translator from source)')
+
 PENDING_REASON = 'check not built yet in this commit (work in progress; see DESIGN.md §9 for the order)'
 
 
